@@ -406,6 +406,27 @@ def r18_7(run):
                        message='%s sets the default SOCKS endpoint from %s: the first configured line is taken whether or not it is usable, and the '
                                'discover-or-add logic is bypassed' % (u.short, src(v)[:60]))
     run.floor('R18.7', 'assignments of Tor._socks_endpoint', k, 2)
+    # ... and it is chosen once: the choice is made exactly when none has been made yet, and what is returned is the remembered choice
+    de = run.idx.find_method(tor, '_default_socks_endpoint')
+    if de is None:
+        raise AnchorVanished('controller.Tor._default_socks_endpoint')
+    g = cfg_of(de)
+    makes = [n for n in g.real_nodes() if n.kind == 'stmt' and isinstance(n.ast, ast.Assign) and 'self._socks_endpoint' in assigned_targets(n.ast) and not is_none(n.ast.value)]
+    run.floor('R18.7', 'choices of the default endpoint', len(makes), 1)
+    for n in makes:
+        gd = g.guarded_by(n, lambda t: isinstance(t, ast.Compare) and dotted(t.left) == 'self._socks_endpoint' and is_none(t.comparators[0]))
+        ok = any((lab == 'T') == isinstance(t.ast.ops[0], (ast.Is, ast.Eq)) for t, lab in gd)
+        run.ob('R18.7', de, n.ast, 'the default SOCKS endpoint is chosen when (and only when) none has been chosen yet', ok, slot='default-endpoint-once',
+               message='_default_socks_endpoint runs the discover-or-add logic although an endpoint is remembered (or skips it when none is): callers get None, or Tor is '
+                       'probed and possibly reconfigured on every connection')
+    unset = [(t.id, 'F' if isinstance(t.ast.ops[0], (ast.Is, ast.Eq)) else 'T') for t in g.live if t.kind == 'test' and isinstance(t.ast, ast.Compare)
+             and dotted(t.ast.left) == 'self._socks_endpoint' and is_none(t.ast.comparators[0])]
+    r = g.reachable([g.entry], avoid=lambda n: n in makes, skip_edges=set(unset), follow_exc=False)
+    rets = [n for n in g.real_nodes() if n.kind == 'stmt' and isinstance(n.ast, ast.Return)]
+    for rn in rets:
+        run.ob('R18.7', de, rn.ast, 'the remembered endpoint is what callers get', dotted(rn.ast.value) == 'self._socks_endpoint' and rn not in r, slot='default-endpoint-returned',
+               message='_default_socks_endpoint returns %s%s' % (src(rn.ast.value)[:40], ' on a path where no endpoint was chosen' if rn in r else ''))
+    run.ob('R18.7', de, de.node, 'falls off without an endpoint', g.exit_fall not in g.live, slot='default-endpoint-falls-off', message='_default_socks_endpoint can end without returning the endpoint')
 
 
 RULES = [
@@ -422,6 +443,8 @@ RULES = [
 from ..selftest import M  # noqa: E402
 F, FC = 'txtorcon/endpoints.py', 'txtorcon/torconfig.py'
 MUTANTS = [
+    M('default-endpoint-guard-negated', 'txtorcon/controller.py', "        if self._socks_endpoint is None:\n            self._socks_endpoint = yield _create_socks_endpoint", "        if self._socks_endpoint is not None:\n            self._socks_endpoint = yield _create_socks_endpoint", ['R18.7']),
+    M('default-endpoint-not-returned', 'txtorcon/controller.py', "            self._socks_endpoint = yield _create_socks_endpoint(self._reactor, self._protocol)\n        return self._socks_endpoint", "            self._socks_endpoint = yield _create_socks_endpoint(self._reactor, self._protocol)\n        return None", ['R18.7']),
     M('wanted-never-bound', FC, "            wanted = socks_config.split()[0]\n            if not any([port", "            if not any([port", ['R-X']),
     M('path-never-defined', FC, "        path = socks_config[5:]\n        if path.startswith", "        if path.startswith", ['R-X']),
     M('rollback-by-snapshot', FC, ["                self.SocksPort.append(socks_config)\n", "                except TorProtocolError as e:\n"], ["                previous = list(self.SocksPort)\n                self.SocksPort.append(socks_config)\n", "                except TorProtocolError as e:\n                    self.SocksPort = previous\n"], ['R18.5']),
